@@ -241,6 +241,19 @@ def all_in_rule(chk, ctx) -> None:
         for e in p.events:
             if e.kind == 'assume' and unversion(e.term) == counted:
                 facts['counts live players with chips'] = True
+    # the decisions are taken under exactly these conditions (nothing more: a further conjunct - "somebody acted", say - would leave a
+    # hand that is all-in from the forced bets alone undetected)
+    wanted = {frozenset(conjuncts(T.mk_bool('and', [live_more, no_draw]))), frozenset(conjuncts(last)),
+              frozenset(by for by in [T.spec('count <= 1', boolean=True)])}
+    gates = set()
+    for n in walk_no_nested(fi.node):
+        if isinstance(n, ast.If) and any(isinstance(x, (ast.Assign, ast.AugAssign, ast.For)) for st in n.body for x in ast.walk(st)
+                                         if not isinstance(x, ast.For) or True):
+            if any(self_attr(t) == 'all_in_status' for st in n.body for x in ast.walk(st) if isinstance(x, ast.Assign) for t in x.targets):
+                gates.add(frozenset(conjuncts(T.cond(n.test))))
+    facts['decided under exactly the stated conditions'] = bool(gates) and all(
+        g in wanted or any(g == frozenset(c for c in w) for w in wanted) or (len(g) == 1 and next(iter(g))[0] == 'le') for g in gates) \
+        and frozenset(conjuncts(T.mk_bool('and', [live_more, no_draw]))) in gates
     # the counter: starts at 0, += 1 per counted player
     inits = [n for n in walk_no_nested(fi.node) if isinstance(n, ast.Assign) and isinstance(n.value, ast.Constant) and n.value.value == 0]
     incs = [n for n in walk_no_nested(fi.node) if isinstance(n, ast.AugAssign) and isinstance(n.op, ast.Add) and isinstance(n.value, ast.Constant) and n.value.value == 1]
